@@ -83,21 +83,36 @@ func clipQ(b []byte) string {
 	return strconv.Quote(string(b))
 }
 
+// family maps the operation in progress to the coarse trigger used in the
+// signature (the precise operation goes into the description): which
+// operations reach a given panic site is a fixed small set, but which of them
+// a particular seed happens to hit is not, and signatures must be stable.
+func family(op string) string {
+	switch {
+	case op == "Reader.Read" || op == "FileFromJSON":
+		return op
+	case strings.HasPrefix(op, "http:"):
+		return "http"
+	}
+	return "file-ops"
+}
+
 // toFinding turns a bad outcome into a failure with a signature made of the
-// panic site, the panic class and the triggering operation.
+// panic site, the panic class and the trigger family.
 func toFinding(o outcome, input map[string]any) finding {
 	input["stack"] = o.stack
+	input["operation"] = o.op
 	if o.hung {
 		return finding{
-			sig:      fmt.Sprintf("C06/hang/%s/via=%s", o.site, o.op),
-			what:     "operation did not terminate within " + hangTimeout.String(),
+			sig:      fmt.Sprintf("C06/hang/%s/via=%s", o.site, family(o.op)),
+			what:     "operation " + o.op + " did not terminate within " + hangTimeout.String() + " (spinning in " + o.site + ")",
 			input:    input,
 			observed: "still running in " + o.site,
 			required: "termination with a value or an error",
 		}
 	}
 	return finding{
-		sig:      fmt.Sprintf("C06/panic/%s/%s/via=%s", o.site, o.kind, o.op),
+		sig:      fmt.Sprintf("C06/panic/%s/%s/via=%s", o.site, o.kind, family(o.op)),
 		what:     "panic in " + o.site + " during " + o.op,
 		input:    input,
 		observed: "panic: " + o.msg,
@@ -157,7 +172,72 @@ func textSeeds(r *gen.Rand) ([]seed, error) {
 		}
 		seeds = append(seeds, seed{"generator: " + gen.Describe(f), b})
 	}
+	seeds = append(seeds, mixedSeeds(r.Fork(77))...)
 	return seeds, nil
+}
+
+// batchLines returns the lines of a written file between file header and file control.
+func batchLines(text []byte) (header string, batches []string, control string) {
+	for _, l := range splitLines(text) {
+		switch {
+		case l == "" || strings.HasPrefix(l, "9999"):
+		case l[0] == '1':
+			header = l
+		case l[0] == '9':
+			control = l
+		default:
+			batches = append(batches, l)
+		}
+	}
+	return
+}
+
+// mixedSeeds are deterministic structural splices the byte-level mutator only
+// finds by luck: ADV batches inside a standard file and the reverse, IAT next
+// to ADV, a batch without its control, two file headers.
+func mixedSeeds(r *gen.Rand) []seed {
+	mk := func(i int, secs ...string) []byte {
+		f, err := gen.File(r.Fork(uint64(i)), gen.Opts{SECs: secs, MinBatches: 1, MaxBatches: 2, MaxEntries: 3})
+		if err != nil {
+			return nil
+		}
+		b, _ := gen.Write(f, false)
+		return b
+	}
+	ppd, adv, iat := mk(1, "PPD", "CCD"), mk(2, "ADV"), mk(3, "IAT")
+	if ppd == nil || adv == nil || iat == nil {
+		return nil
+	}
+	hp, bp, cp := batchLines(ppd)
+	ha, ba, ca := batchLines(adv)
+	_, bi, _ := batchLines(iat)
+	join := func(parts ...[]string) []byte {
+		var all []string
+		for _, p := range parts {
+			all = append(all, p...)
+		}
+		return []byte(strings.Join(all, "\n") + "\n")
+	}
+	nb := 0
+	for _, l := range append(append([]string(nil), ba...), bp...) {
+		if l[0] == '5' {
+			nb++
+		}
+	}
+	caAll := ca
+	if len(ca) > 7 {
+		caAll = ca[:1] + fmt.Sprintf("%06d", nb) + ca[7:]
+	}
+	return []seed{
+		{"structural: ADV batches then standard batches, ADV control counting all batches", join([]string{ha}, ba, bp, []string{caAll})},
+		{"structural: standard batches then ADV batches, standard control", join([]string{hp}, bp, ba, []string{cp})},
+		{"structural: ADV batches then standard batches, ADV control", join([]string{ha}, ba, bp, []string{ca})},
+		{"structural: ADV batches then standard batches, standard control", join([]string{hp}, ba, bp, []string{cp})},
+		{"structural: IAT batches then ADV batches", join([]string{hp}, bi, ba, []string{cp})},
+		{"structural: ADV then IAT batches, ADV control", join([]string{ha}, ba, bi, []string{ca})},
+		{"structural: batch without control then next batch", join([]string{hp}, bp[:len(bp)-1], bi, []string{cp})},
+		{"structural: two headers two controls", join([]string{hp}, bp, []string{cp, ha}, ba, []string{ca})},
+	}
 }
 
 // jsonFixtures returns every *.json under /repo/test (sorted).
@@ -191,9 +271,12 @@ func run(t *T) {
 		t.Fail("C06/generator", "generator failed", nil, err.Error(), "valid files")
 		return
 	}
+	wait := startTargeted(t) // contains the one case known to hang; it overlaps with everything else
+	runJSONSystematic(t)
 	runText(t, seeds)
 	runJSON(t)
 	runHTTP(t)
+	wait()
 }
 
 // ------------------------------------------------------------------ text
@@ -224,7 +307,8 @@ func runText(t *T, seeds []seed) {
 		pool[i] = s.data
 	}
 	other := otherFileText(t.R.Fork(2))
-	n := len(seeds) + t.Budget(6000)
+	nFixed := 2 * len(seeds) // every unmutated seed under two fixed sequences that together cover every operation
+	n := nFixed + t.Budget(6000)
 	base := t.R.Fork(3)
 	rands := make([]*gen.Rand, n)
 	for i := range rands {
@@ -237,21 +321,23 @@ func runText(t *T, seeds []seed) {
 		r := rands[i]
 		var s seed
 		text, label := []byte(nil), "unmutated"
-		if i < len(seeds) {
-			s = seeds[i]
+		if i < nFixed {
+			s = seeds[i/2]
 			text = s.data
 		} else {
 			s = gen.Pick(r, seeds)
 			text, label = Mutate(r, s.data, pool)
 		}
 		opts := sampleOpts(r)
-		if i < len(seeds) && i%2 == 0 {
-			opts = optSet{isNil: true}
-		}
 		seq := sampleSeq(r)
 		choices := make([]bool, len(seq))
 		for j := range choices {
 			choices[j] = r.Chance(1, 3)
+		}
+		if i < nFixed {
+			opts = optSet{isNil: true}
+			seq = fixedSeqs[i%2]
+			choices = make([]bool, len(seq))
 		}
 		input := func() map[string]any {
 			return map[string]any{"source": s.name, "mutation": label, "text_go_quoted": clipQ(text), "validate_opts": opts.names(),
@@ -423,6 +509,207 @@ func boundaryJSON(r *gen.Rand, old any) (any, string) {
 	}
 }
 
+// coreValues are the replacement values of the systematic pass.
+func coreValues(old any) []struct {
+	v    any
+	kind string
+} {
+	type vk = struct {
+		v    any
+		kind string
+	}
+	switch old.(type) {
+	case string:
+		// one length below / above each fixed slice bound the library uses (4, 6, 9, 10, 13, 15, 20, 22, 44)
+		out := []vk{{"", "str-empty"}, {"é漢", "str-nonascii"}}
+		for _, n := range []int{1, 5, 7, 10, 14, 16, 21, 30, 100} {
+			out = append(out, vk{strings.Repeat("1", n), fmt.Sprintf("str-%d", n)})
+		}
+		return out
+	case json.Number:
+		return []vk{{json.Number("0"), "num-0"}, {json.Number("-1"), "num-negative"}, {json.Number("99999999999999999"), "num-17-digits"}}
+	case bool:
+		return []vk{{!old.(bool), "bool-flipped"}}
+	}
+	return []vk{{"", "null-to-empty-string"}}
+}
+
+var fixedSeqs = [][]string{
+	{"Validate", "Create", "Write", "MarshalJSON", "SegmentFile", "FlattenBatches"},
+	{"MergeFiles", "Reversal", "Batch.Create", "WriteBypass", "Validate", "Create"},
+}
+
+var systematicSeq = []string{"Batch.Create", "Create", "Validate", "WriteBypass", "MarshalJSON", "FlattenBatches"}
+
+// runJSONSystematic: for every SEC code a forward and a return/NOC file of one
+// batch; every distinct leaf path (array indices collapsed, first occurrence)
+// x the core boundary values.  Same coverage for every seed, so the set of
+// signatures it reports does not depend on luck.
+type sysCase struct {
+	tag, baseName, path, kind, target string
+	doc                               []byte
+}
+
+// targetedCases: the D1 shapes.  A batch with an Offset and >= 3 entries
+// (panics), and the same with its FIRST entry named OFFSET (never terminates).
+func targetedCases(r *gen.Rand) []sysCase {
+	var cases []sysCase
+	// the targeted D1 shape: a batch with an Offset whose FIRST entry is named OFFSET
+	for k := 0; k < 200; k++ {
+		f, err := gen.File(r.Fork(uint64(1000+k)), gen.Opts{SECs: []string{"PPD"}, Offset: true, MinBatches: 1, MaxBatches: 1, MaxEntries: 3})
+		if err != nil || len(f.Batches) == 0 {
+			continue
+		}
+		es := f.Batches[0].GetEntries()
+		if len(es) < 3 || es[len(es)-1].IndividualName != "OFFSET" {
+			continue
+		}
+		doc, _ := json.Marshal(f)
+		cases = append(cases, sysCase{"PPD+offset", gen.Describe(f), "", "unmutated", "", doc})
+		var root any
+		dec := json.NewDecoder(bytes.NewReader(doc))
+		dec.UseNumber()
+		if dec.Decode(&root) == nil {
+			p := []any{"batches", 0, "entryDetails", 0, "individualName"}
+			func() {
+				defer func() { recover() }()
+				setAt(root, p, "OFFSET")
+				d2, _ := json.Marshal(root)
+				cases = append(cases, sysCase{"PPD+offset", gen.Describe(f), "batches[].entryDetails[].individualName", "str-OFFSET-first-entry", "", d2})
+			}()
+		}
+		// the existing OFFSET entry renamed: decoding appends a fresh OFFSET entry at index >= 3, a later Batch.Create trips over it
+		dec = json.NewDecoder(bytes.NewReader(doc))
+		dec.UseNumber()
+		if dec.Decode(&root) == nil {
+			func() {
+				defer func() { recover() }()
+				for ei, e := range es {
+					if e.IndividualName == "OFFSET" {
+						setAt(root, []any{"batches", 0, "entryDetails", ei, "individualName"}, "X")
+					}
+				}
+				d2, _ := json.Marshal(root)
+				cases = append(cases, sysCase{"PPD+offset", gen.Describe(f), "batches[].entryDetails[].individualName", "str-1-every-OFFSET-entry", "", d2})
+			}()
+		}
+		break
+	}
+	return cases
+}
+
+func evalSysCase(c sysCase, other []byte) caseResult {
+	res := caseResult{key: c.tag + "|" + c.path + "=" + c.kind, nontrivial: true}
+	input := func() map[string]any {
+		return map[string]any{"base": c.tag + " generator: " + c.baseName, "replaced": c.path + "=" + c.kind, "json": clipQ(c.doc), "api": "FileFromJSON", "sequence": systematicSeq,
+			"replay": "f, _ := ach.FileFromJSON(json); then the sequence on f"}
+	}
+	var file *ach.File
+	var ferr error
+	var cur atomic.Value
+	cur.Store("FileFromJSON")
+	o := guard(&cur, func() { file, ferr = ach.FileFromJSON(c.doc) })
+	cls := "json-systematic/" + c.tag + "/"
+	if o.bad() {
+		res.class = cls + "DECODE-FAILED"
+		res.fails = append(res.fails, toFinding(o, input()))
+		return res
+	}
+	switch {
+	case file == nil:
+		res.class = cls + "rejected-nil-file"
+		return res
+	case ferr != nil:
+		res.class = cls + "error+file"
+	default:
+		res.class = cls + "accepted"
+	}
+	o = guard(&cur, func() { runSeq(&cur, file, parseOther(other), systematicSeq, nil) })
+	if o.bad() {
+		res.fails = append(res.fails, toFinding(o, input()))
+	}
+	return res
+}
+
+// startTargeted evaluates the targeted cases in the background (one of them
+// runs into the hang timeout) and returns a function that waits and reports.
+func startTargeted(t *T) func() {
+	cases := targetedCases(t.R.Fork(11))
+	other := otherFileText(t.R.Fork(12))
+	out := make([]caseResult, len(cases))
+	var wg sync.WaitGroup
+	for i := range cases {
+		wg.Add(1)
+		go func(i int) {
+			defer wg.Done()
+			out[i] = evalSysCase(cases[i], other)
+		}(i)
+	}
+	return func() {
+		wg.Wait()
+		report(t, out)
+	}
+}
+
+func runJSONSystematic(t *T) {
+	var cases []sysCase
+	r := t.R.Fork(9)
+	for si, sec := range gen.AllSECs() {
+		for ci, cats := range [][]string{nil, {ach.CategoryReturn, ach.CategoryNOC}} {
+			f, err := gen.File(r.Fork(uint64(si*2+ci)), gen.Opts{SECs: []string{sec}, Categories: cats, MinBatches: 1, MaxBatches: 1, MaxEntries: 2})
+			if err != nil {
+				continue
+			}
+			doc, err := json.Marshal(f)
+			if err != nil {
+				continue
+			}
+			tag := sec + []string{"/forward", "/return-or-noc"}[ci]
+			var root any
+			dec := json.NewDecoder(bytes.NewReader(doc))
+			dec.UseNumber()
+			if dec.Decode(&root) != nil {
+				continue
+			}
+			var ls []leaf
+			leaves(root, nil, &ls)
+			seen := map[string]bool{}
+			for _, l := range ls {
+				ps := l.String()
+				if seen[ps] {
+					continue
+				}
+				seen[ps] = true
+				old := getAt(root, l.path)
+				for _, cv := range coreValues(old) {
+					setAt(root, l.path, cv.v)
+					d2, _ := json.Marshal(root)
+					cases = append(cases, sysCase{tag, gen.Describe(f), ps, cv.kind, "", d2})
+					if _, isStr := old.(string); isStr && strings.Contains(ps, "entryDetails") {
+						// the same with validation switched off inside the document: the value
+						// survives decoding and reaches the later operations
+						m := root.(map[string]any)
+						saved := m["validateOpts"]
+						m["validateOpts"] = map[string]any{"skipAll": true}
+						d3, _ := json.Marshal(root)
+						m["validateOpts"] = saved
+						cases = append(cases, sysCase{tag, gen.Describe(f), ps + " & validateOpts={skipAll}", cv.kind, "", d3})
+					}
+				}
+				setAt(root, l.path, old)
+			}
+		}
+	}
+	other := otherFileText(t.R.Fork(10))
+	rs := parallel(len(cases), func(i int) caseResult {
+		if hangs.Load() >= maxHangs {
+			return caseResult{class: "json-systematic/skipped-after-too-many-hangs"}
+		}
+		return evalSysCase(cases[i], other)
+	})
+	report(t, rs)
+}
+
 func runJSON(t *T) {
 	var bases []seed
 	for _, f := range generatorFiles(t.R.Fork(4), 4) {
@@ -521,7 +808,7 @@ func runJSON(t *T) {
 		var file *ach.File
 		var ferr error
 		var cur atomic.Value
-		cur.Store(api)
+		cur.Store("FileFromJSON")
 		o := guard(&cur, func() {
 			if withOpts {
 				file, ferr = ach.FileFromJSONWith(doc, opts.build())
